@@ -70,7 +70,11 @@ TRUSTED = ['Coq 8.16.1 kernel + vm_compute (case evaluation only)',
            'oracle shape contracts: qr (R rows = Q cols >= 1), rq (R cols = Q rows >= 1), svd (>= 1 singular value) for '
            'non-empty matrices; eigh / argsort unconstrained',
            'IEEE-754 semantics of division by zero / NaN comparison as abstracted by the poison flag of OG']
-ASSUMPTIONS = ['valid input: non-empty list of 3-D cores, ranks chain 1..1, every mode size and rank >= 1, finite entries',
+ASSUMPTIONS = ['search scale families (subnormal entries 1e-320..1e-290 in one core, 1e-160 per core, 1e+150 per core, one '
+               '1e-160 core) are checked for finiteness / well-formedness on every use_stab path and accuracy; dense agreement '
+               'with an extended-precision reference is required to 1e-9 only where no operand or intermediate is subnormal '
+               '(coarse 1e-2 / 1e-3 bound otherwise); loss of VALUE accuracy under underflow is C16 / C04, not C11',
+               'valid input: non-empty list of 3-D cores, ranks chain 1..1, every mode size and rank >= 1, finite entries',
                'overflow of huge entries is property C16, not C11']
 
 warnings.filterwarnings('ignore')
